@@ -363,6 +363,8 @@ struct SFrame {
     counter: Option<String>,
     /// a `while` body: bindings made here are not definite afterwards
     tentative: bool,
+    /// the counter of this loop frame was set to a value near i64::MAX
+    counter_maxed: bool,
 }
 
 #[derive(Clone, Debug)]
@@ -806,11 +808,18 @@ impl<'a> PGen<'a> {
             // rebind the counter of the innermost loop frame, in ways that cannot make the
             // loop run for ever: move it forward, or to a 64-bit boundary value
             if let Some(c) = self.scope.innermost_counter().map(|s| s.to_string()) {
-                let e = match ch.upto(3) {
+                let fi = self.scope.frames.iter().rposition(|f| !f.tentative).unwrap();
+                // once the counter has been pushed to the top of the range it is never moved
+                // forward again (that would wrap around and loop for 2^63 iterations)
+                let k = if self.scope.frames[fi].counter_maxed { 1 + ch.upto(2) } else { ch.upto(3) };
+                let e = match k {
                     0 => Expr::bin(BinOp::Add, Expr::var(&c), Expr::lit(ch.range(0, 2) as u64)),
                     1 => Expr::lit(i64::MAX as u64),
                     _ => Expr::lit(i64::MAX as u64 - 1),
                 };
+                if k != 0 {
+                    self.scope.frames[fi].counter_maxed = true;
+                }
                 self.scope.bind(&c, false);
                 return Stmt::Let(c, e);
             }
@@ -866,6 +875,7 @@ impl<'a> PGen<'a> {
                         vars: vec![(v.clone(), true)],
                         counter: Some(v.clone()),
                         tentative: false,
+                        counter_maxed: false,
                     });
                     let mut inner = vec![];
                     self.block(ch, depth + 1, &mut inner);
@@ -878,6 +888,7 @@ impl<'a> PGen<'a> {
                         vars: vec![("n".to_string(), true)],
                         counter: Some("n".to_string()),
                         tentative: false,
+                        counter_maxed: false,
                     });
                     let id = self.next_row;
                     self.next_row += 1;
@@ -916,7 +927,7 @@ impl<'a> PGen<'a> {
                 };
                 out.push(Stmt::Let(wname.clone(), init));
                 self.scope.bind(&wname, true);
-                self.scope.frames.push(SFrame { vars: vec![], counter: None, tentative: true });
+                self.scope.frames.push(SFrame { vars: vec![], counter: None, tentative: true, counter_maxed: false });
                 let mut inner = vec![];
                 self.block(ch, depth + 1, &mut inner);
                 inner.push(Stmt::Let(wname.clone(), step));
@@ -930,7 +941,7 @@ impl<'a> PGen<'a> {
                 } else {
                     Expr::bin(BinOp::Ne, Expr::lit(3), Expr::lit(3))
                 };
-                self.scope.frames.push(SFrame { vars: vec![], counter: None, tentative: true });
+                self.scope.frames.push(SFrame { vars: vec![], counter: None, tentative: true, counter_maxed: false });
                 let mut inner = vec![];
                 self.block(ch, depth + 1, &mut inner);
                 self.scope.pop();
@@ -945,7 +956,7 @@ impl<'a> PGen<'a> {
                     1 => Expr::bin(BinOp::Lt, q, Expr::lit(3)),
                     _ => Expr::un(UnOp::Not, Expr::bin(BinOp::Eq, q, Expr::lit(2))),
                 };
-                self.scope.frames.push(SFrame { vars: vec![], counter: None, tentative: true });
+                self.scope.frames.push(SFrame { vars: vec![], counter: None, tentative: true, counter_maxed: false });
                 let mut inner = vec![];
                 let id = self.next_row;
                 self.next_row += 1;
@@ -963,6 +974,11 @@ impl<'a> PGen<'a> {
 /// Generate signals, header, virtual signals and a program.
 pub fn gen_case(ch: &mut Ch, cfg: &Cfg) -> Built {
     let sigs = gen_signals(ch, cfg);
+    gen_case_with(ch, cfg, sigs)
+}
+
+/// Generate header, virtual signals and a program for a given signal list.
+pub fn gen_case_with(ch: &mut Ch, cfg: &Cfg, sigs: Vec<Sig>) -> Built {
     // virtual signals
     let nv = if cfg.max_virtual > 0 { cfg.min_virtual + ch.upto(cfg.max_virtual - cfg.min_virtual + 1) } else { 0 };
     let vnames = pick_names(ch, &VIRT_NAMES, nv);
@@ -976,7 +992,7 @@ pub fn gen_case(ch: &mut Ch, cfg: &Cfg) -> Built {
         cols: cols.clone(),
         outs: outs.clone(),
         scope: Scope {
-            frames: vec![SFrame { vars: vec![], counter: None, tentative: false }],
+            frames: vec![SFrame { vars: vec![], counter: None, tentative: false, counter_maxed: false }],
             maybe: vec![],
         },
         next_row: 0,
